@@ -91,26 +91,55 @@ func freshSlice(f *ssa.Function, s ssa.Value, use ssa.Instruction) bool {
 	if !ok || ld.Op != token.MUL {
 		return false
 	}
-	var found *ssa.Store
+	// the stores to the location; the load is fresh when a fresh store dominates it and no other store to the location
+	// lies on a path from that store to the load (several branches may each make their own copy)
+	var stores []*ssa.Store
 	for _, b := range f.Blocks {
 		for _, in := range b.Instrs {
-			st, ok := in.(*ssa.Store)
-			if !ok || !sameAddr(st.Addr, ld.X) {
-				continue
+			if st, ok := in.(*ssa.Store); ok && sameAddr(st.Addr, ld.X) {
+				stores = append(stores, st)
 			}
-			if found != nil {
-				return false
-			}
-			found = st
 		}
 	}
-	if found == nil || !isFresh(found.Val) {
-		return false
+	dominatesLoad := func(st *ssa.Store) bool {
+		if st.Block() == ld.Block() {
+			return instrIndex(st) < instrIndex(ld)
+		}
+		return st.Block().Dominates(ld.Block())
 	}
-	if found.Block() == ld.Block() {
-		return instrIndex(found) < instrIndex(ld)
+	// blocks from which the load can be reached
+	canReach := map[*ssa.BasicBlock]bool{ld.Block(): true}
+	for work := []*ssa.BasicBlock{ld.Block()}; len(work) > 0; {
+		b := work[len(work)-1]
+		work = work[:len(work)-1]
+		for _, p := range b.Preds {
+			if !canReach[p] {
+				canReach[p] = true
+				work = append(work, p)
+			}
+		}
 	}
-	return found.Block().Dominates(ld.Block())
+	for _, st := range stores {
+		if !isFresh(st.Val) || !dominatesLoad(st) {
+			continue
+		}
+		clean := true
+		w := &walker{fn: f, cutEdge: func(from, to *ssa.BasicBlock) bool { return !canReach[to] }}
+		w.run([]point{after(st)}, func(in ssa.Instruction) bool {
+			if in == ssa.Instruction(ld) {
+				return false
+			}
+			if o, ok := in.(*ssa.Store); ok && o != st && sameAddr(o.Addr, ld.X) {
+				clean = false
+				return false
+			}
+			return true
+		})
+		if clean {
+			return true
+		}
+	}
+	return false
 }
 
 func ruleWho(p *Prog, r *Report, c whoCfg) {
@@ -336,8 +365,10 @@ func ruleAdv(p *Prog, r *Report) {
 func runC02(p *Prog, r *Report) {
 	r.Explain = append(r.Explain, "R-GLYPHS: no function reachable from LineWrapper.WrapParagraph/Prepare/WrapNextLine stores to a field of shaping.Glyph through shared storage: the glyph slices of candidate, committed and input runs share their backing arrays, so such a store changes the caller's shaped runs and every other candidate cut from them.")
 	ruleWho(p, r, whoCfg{rule: "R-GLYPHS", pkg: "shaping", typ: "Glyph",
-		entries: []fnRef{{"shaping", "LineWrapper", "WrapParagraph"}, {"shaping", "LineWrapper", "Prepare"}, {"shaping", "LineWrapper", "WrapNextLine"}},
-		why:     "line wrapping must not alter glyph storage that it shares with the input runs and with other candidates", floorSeen: 30})
+		entries: []fnRef{{"shaping", "LineWrapper", "WrapParagraph"}, {"shaping", "LineWrapper", "Prepare"}, {"shaping", "LineWrapper", "WrapNextLine"},
+			// the methods of a wrapped Line work on glyph storage that the line shares with the input runs as well
+			{"shaping", "Line", "AdjustBaselines"}},
+		why: "line wrapping must not alter glyph storage that it shares with the input runs and with other candidates", floorSeen: 30})
 	ruleAdv(p, r)
 	ruleCut(p, r)
 	wrapperState(p, r)
